@@ -1,4 +1,5 @@
 import MlodaVerif.Lemmas.ChainRender
+import MlodaVerif.Lemmas.ChainOptLevel
 import MlodaVerif.Model.Config
 /-! # C16 - name-chained, option-configured and JSON-configured features are equivalent
 
@@ -372,3 +373,74 @@ theorem C16.nested_group_options_witness :
     (match matchingGroups "imp1".toList ⟨[("imputation_method".toList, .str "mean".toList), (kInFeatures, .str "x".toList),
         ("aggregation_type".toList, .str "sum".toList)], []⟩ with
      | .ok l => l == [0, 6] | _ => false) = true := by decide
+
+
+/-! ## the three notations agree at every level -/
+
+/-- **options form, one level.** For every vocabulary operation of an option-configurable unary group (aggregation,
+imputation, time window of any size, centrality, scaling), every placeholder name without `__` and every `in_features`
+value in the str / frozenset / Feature spelling denoting the input feature `f`:
+`Feature(placeholder, Options(context={<parameters>, in_features: v}))` is claimed by exactly the operation's group,
+which extracts exactly the operation's parameters and asks for exactly the input `f`. -/
+theorem C16.options_level (op : Op) (hok : op.ok = true) (hcfg : op.gid ≠ 10 ∧ op.gid ≠ 5) (har : op.arityOk 1 = true)
+    (v f : PV) (hv : inValFeat v = some f) (ph : Str) (hph : hasInfix sep2 ph = false) :
+    ∃ g ex, groupAt op.gid = some g ∧
+      resolveStep ph (featOpts (optFeature ph g op.params v)) = .ok (some ⟨op.gid, op.params, ⟨[f], ex⟩⟩) :=
+  resolveStep_level op hok hcfg.1 hcfg.2 har v f hv ph hph
+
+/-- **notations_agree.** For every chain `c` (any depth) and option-configurable operation `op`: the chained name
+`c ▷ op`, the options form (any admissible spelling of `in_features` denoting `f`) and the JSON form with
+`context_options` + `in_features: [name of c]` all resolve, at this level, to the same group, the same parameters and
+the input "`c`" - and the JSON document loads to precisely the options-form Feature. -/
+theorem C16.notations_agree (c : Chain) (op : Op) (hc : c.wfU = true) (hok : op.ok = true) (hcfg : op.gid ≠ 10 ∧ op.gid ≠ 5)
+    (har : op.arityOk 1 = true) (ph : Str) (hph : hasInfix sep2 ph = false) (fuel : Nat) :
+    ∃ g exN exO, groupAt op.gid = some g ∧
+      -- name form
+      resolveStep (Chain.step c op).render emptyOpts = .ok (some ⟨op.gid, op.params, ⟨[mkFeat c.render], exN⟩⟩) ∧
+      -- options form, in_features spelled frozenset({"<name of c>"}) (what the JSON loader produces) …
+      resolveStep ph (featOpts (optFeature ph g op.params (.fset [.str c.render])))
+        = .ok (some ⟨op.gid, op.params, ⟨[mkFeat c.render], exO⟩⟩) ∧
+      -- … and every other admissible spelling `v` of an input `f` gives `f`
+      (∀ v f, inValFeat v = some f → ∃ ex, resolveStep ph (featOpts (optFeature ph g op.params v))
+        = .ok (some ⟨op.gid, op.params, ⟨[f], ex⟩⟩)) ∧
+      -- JSON form
+      loadFeaturesFuel fuel (.list [.dict [(kName, .str ph), (kInFeatures, .list [.str c.render]), (kContextOptions, .dict (optKV g op.params))]])
+        = .ok [optFeature ph g op.params (.fset [.str c.render])] := by
+  obtain ⟨hne, hamp⟩ := Chain.wfU_render c hc
+  obtain ⟨g0, hg0, hmod0, _⟩ := sufFacts_of_ok op hok
+  -- name form
+  obtain ⟨g, hg, hstep⟩ := resolveStep_rendered op hok c.render hne
+    (fun g' hg' _ => mixin_single_count op g' hg' har c.render hamp)
+    (fun g' hg' hk => by
+      have hmod : modelled g' = true := by rw [hg'] at hg0; cases hg0; exact hmod0
+      rcases kinds (mem_modelledGroups (groupAt_mem hg') hmod) with ⟨hk', _⟩ | ⟨hk', _, _⟩ | ⟨_, hmin, _⟩
+      · rw [hk] at hk'; exact absurd hk' (by decide)
+      · rw [hk] at hk'; exact absurd hk' (by decide)
+      · have := arityOk_elim hg' har
+        simp [hmin] at this)
+  have hmod : modelled g = true := by rw [hg] at hg0; cases hg0; exact hmod0
+  have hmainN : ∃ ex, nameInputs g c.render = ⟨[mkFeat c.render], ex⟩ := by
+    rcases kinds (mem_modelledGroups (groupAt_mem hg) hmod) with ⟨hk, _⟩ | ⟨hk, _, _⟩ | ⟨hk, hmin, _⟩
+    · have : splitOn inputSep c.render = [c.render] := splitOn_of_not_mem _ _ (by simpa [inputSep] using hamp)
+      exact ⟨[], by simp [nameInputs, hk, this, dedupe_single]⟩
+    · have hne1 : (twName == mixinName) = false := by decide
+      exact ⟨if referenceTimeKey == c.render then [] else [mkFeat referenceTimeKey], by simp [nameInputs, hk, hne1]⟩
+    · have := arityOk_elim hg har
+      simp [hmin] at this
+  obtain ⟨exN, hexN⟩ := hmainN
+  -- options form
+  have hlevel : ∀ v f, inValFeat v = some f → ∃ ex, resolveStep ph (featOpts (optFeature ph g op.params v))
+      = .ok (some ⟨op.gid, op.params, ⟨[f], ex⟩⟩) := by
+    intro v f hv
+    obtain ⟨g', ex, hg', h⟩ := resolveStep_level op hok hcfg.1 hcfg.2 har v f hv ph hph
+    rw [hg] at hg'; cases hg'
+    exact ⟨ex, h⟩
+  obtain ⟨exO, hexO⟩ := hlevel (.fset [.str c.render]) (mkFeat c.render) rfl
+  refine ⟨g, exN, exO, hg, by rw [Chain.render_step, hstep, hexN], hexO, hlevel, ?_⟩
+  -- JSON form
+  have hkin : kInFeatures = inFeaturesKey := by decide
+  have hlk : lookup kInFeatures (optKV g op.params) = none := by
+    rw [hkin]
+    exact lookup_none_of_not_mem _ _ (fun kv hkv => requiredKeys_ne_in g kv.1 (zip_keys_subset _ _ kv hkv))
+  have := C16.json_ctx_form_loads fuel ph (optKV g op.params) [c.render] (by simp) hlk
+  simpa [optFeature, hkin, dedupe] using this
